@@ -38,6 +38,14 @@ def make_replay(prop, ob, ctx):
     return {'path': path, 'has_input': rp['input'] is not None and rp.get('replayed_on_real_code', False), 'summary': summary}
 
 
+LSR_FAMILIES = {
+    # harness -> how the harness draws (language, script, region): 'none' | 'some' | 'any'
+    'maximize_is_cascade_no_lang': 'none', 'maximize_is_cascade_lang': 'some', 'maximize_is_cascade_lang_specific': 'some',
+    'maximize_full_is_unchanged': 'some', 'maximize_only_adds_fills_idempotent': 'any', 'minimize_laws': 'any', 'minimize_idempotent': 'any',
+    'minimize_after_maximize': 'any', 'dir_is_model': 'any',
+}
+
+
 def decode(harness, values):
     """Kani playback values -> a description of the input (harness-specific layout)."""
     flat = [v for v in values]
@@ -45,7 +53,66 @@ def decode(harness, values):
         buf = bytes(x[0] for x in flat[:16])
         ln = int.from_bytes(bytes(flat[16]), 'little')
         return {'kind': 'bytes', 'harness': harness, 'hex': buf[:ln].hex(), 'ascii': buf[:ln].decode('latin1')}
+    if harness in LSR_FAMILIES:
+        # replicate the harness's sequence of kani::any() draws: `if any::<bool>() { absent } else { any raw integer }`
+        it = iter(flat)
+
+        def num():
+            return int.from_bytes(bytes(next(it)), 'little')
+
+        def opt():
+            return None if num() != 0 else num()
+        try:
+            mode = LSR_FAMILIES[harness]
+            lang = None if mode == 'none' else (num() if mode == 'some' else opt())
+            script, region = opt(), opt()
+            return {'kind': 'lsr', 'harness': harness, 'l': lang, 's': script, 'r': region}
+        except StopIteration:
+            pass
     return {'kind': 'raw', 'harness': harness, 'values': values}
+
+
+def lsr_verdict(prop, inp, out):
+    """Compare what the real library did on (l, s, r) with the reference built from the CLDR JSON (vf/refmodel.py)."""
+    import re
+    from . import refmodel
+    ref = refmodel.Ref(common.REPO)
+    f = dict(re.findall(r'(\w+)=(\S+)', out))
+
+    def trip(t):
+        t = t.split(':')[-1]
+        return tuple(None if x == '-' else int(x) for x in t.split(','))
+
+    def shown(t):
+        return '-'.join(['und' if t[0] is None else refmodel.text(t[0])] + [refmodel.text(x) for x in t[1:] if x is not None])
+    x, mx, mn = trip(f['x']), trip(f['max']), trip(f['min'])
+    cmx, cmn = f['max'].startswith('true'), f['min'].startswith('true')
+    problems = []
+    want = ref.mx(*x)
+    if prop in ('C06', 'C18', 'C14', 'C07'):
+        if (want is None) != (not cmx) or (want is not None and want != mx):
+            problems.append('maximize(%s) = %s, the CLDR cascade gives %s' % (shown(x), shown(mx) if cmx else 'unchanged', shown(want) if want else 'unchanged'))
+    if prop in ('C07', 'C06'):
+        if cmx and (None in mx or any(a is not None and a != b for a, b in zip(x, mx))):
+            problems.append('maximize(%s) = %s drops or replaces a given subtag or leaves one empty' % (shown(x), shown(mx)))
+        if not cmx and mx != x:
+            problems.append('maximize(%s) returned false but changed the value to %s' % (shown(x), shown(mx)))
+        if f['maxmax'].startswith('true'):
+            problems.append('maximize is not idempotent on %s' % shown(x))
+    if prop == 'C08':
+        if trip(f['minmin']) != mn:
+            problems.append('minimize(minimize(%s)) = %s != minimize = %s' % (shown(x), shown(trip(f['minmin'])), shown(mn)))
+        if trip(f['minmax']) != mn:
+            problems.append('minimize(maximize(%s)) = %s != minimize(%s) = %s' % (shown(x), shown(trip(f['minmax'])), shown(x), shown(mn)))
+        if cmn and trip(f['maxmin']) != (mx if cmx else x):
+            problems.append('minimize(%s) = %s maximizes to %s, the original to %s' % (shown(x), shown(mn), shown(trip(f['maxmin'])), shown(mx)))
+        if not cmn and mn != x:
+            problems.append('minimize(%s) returned false but changed the value' % shown(x))
+    if prop == 'C14':
+        d = {'LTR': 0, 'RTL': 1, 'TTB': 2}[f['dir']]
+        if d != ref.direction(x[0], x[1], x[2], True):
+            problems.append('character_direction(%s) = %s, the CLDR model (likely subtags on) gives %s' % (shown(x), f['dir'], ['LTR', 'RTL', 'TTB'][ref.direction(x[0], x[1], x[2], True)]))
+    return problems
 
 
 VW = os.path.join(common.BUILD, 'witness-target', 'release', 'vw')
@@ -84,6 +151,16 @@ def run_input(prop, rp):
     inp = rp['input']
     if inp.get('kind') == 'bytes' and inp.get('harness') in LEAF_TYPES:
         cmd = [VW, 'leaf', LEAF_TYPES[inp['harness']], inp['hex']]
+    elif inp.get('kind') == 'lsr':
+        o = lambda v: '-' if v is None else str(v)
+        r = common.run([VW, 'lsr', o(inp['l']), o(inp['s']), o(inp['r'])], timeout=120)
+        out = (r['out'] or '').strip()
+        if r['rc'] != 0 or not out.startswith('x='):
+            return False, 'replay of the raw (language, script, region) could not be run: ' + ((r['err'] or '') + out)[-300:]
+        problems = lsr_verdict(prop, inp, out)
+        if problems:
+            return True, 'DISAGREE ' + '; '.join(problems) + '   [real library: ' + out[:300] + ']'
+        return False, 'AGREE the solver\'s (language, script, region) does not reproduce on the real library with the real tables (the obligation is modular: it may fail only under the abstract callee) [' + out[:200] + ']'
     elif inp.get('kind') == 'vw':
         cmd = [VW] + inp['args']
     else:
